@@ -527,6 +527,43 @@ pub fn run(tier: Tier, totals: &mut Totals) {
             e.1.push(json!({"idx": 0, "sig": sig, "what": what, "replay": {"scale_registry": n}}));
         }
     }
+    // registry operations issued while functions are running: from a function called by another one,
+    // remove / ask about the running function itself, its caller, a function that is not running, an
+    // sdk command; the registry follows the operation at once and the running invocations finish
+    for target in ["inner", "outer", "other", "echo", "std::Echo"] {
+        for place in ["inner", "outer"] {
+            for op in ["remove_command", "unalias", "alias"] {
+                let (opline, res, defined_after) = match op {
+                    "remove_command" => (format!("rm = remove_command {}", target), "true", false),
+                    // unalias removes aliases only: a function or a command name is left alone ... except
+                    // an alias of an sdk command, which `echo` is
+                    "unalias" => (format!("rm = unalias {}", target), if target == "echo" { "true" } else { "false" }, target != "echo"),
+                    // a new alias cannot take a command name that is in use; it can take the place of an alias
+                    _ => (format!("rm = alias {} set A", target), if target == "echo" { "true" } else { "false" }, true),
+                };
+                let at = |p: &str| if p == place { format!("{}\nd = is_command_defined {}\n", opline, target) } else { String::new() };
+                let text = format!(
+                    "fn outer\nri = inner\n{}return O\nend\nfn inner\n{}return I\nend\nfn other\nreturn X\nend\no = outer\nd_after = is_command_defined {}\nlast = set reached",
+                    at("outer"),
+                    at("inner"),
+                    target
+                );
+                crate::util::scale_case_totals(
+                    totals,
+                    &format!("while-running {} {} from {}", op, target, place),
+                    &text,
+                    &[
+                        ("rm", Some(res.to_string())),
+                        ("d", Some(defined_after.to_string())),
+                        ("ri", Some("I".to_string())),
+                        ("o", Some("O".to_string())),
+                        ("d_after", Some(defined_after.to_string())),
+                        ("last", Some("reached".to_string())),
+                    ],
+                );
+            }
+        }
+    }
     if totals.samples.len() < 8 {
         totals.samples.push(json!({"script_ops": seqs.last().map(|s| s.iter().map(|&k| format!("{:?}", ops[k])).collect::<Vec<_>>())}));
     }
@@ -619,7 +656,7 @@ pub fn replay(case: &Value) -> Result<String, String> {
     Ok(format!("{:?} -> {:?}", seq, run_sequence(&seq)))
 }
 
-pub const RULE: &str = "Part A: explicit-state breadth-first search to a fixpoint from the empty registry over the Rust API: set(c) for every command with name in {a,b,c} and an alias set of size <= 2 from the pool, remove/get/exists/get_for_use for every name of {a,b,c,x,y}, get_all_command_names; every transition is compared with the model (name table + alias table consulted first; an accepted registration drops an alias equal to the new name; removal drops exactly the aliases that point to the removed command): result of the call, refused registrations and lookups leave both public maps identical, every lookup of the universe agrees, no alias points to a missing command. Part B: every sequence of 1..k script-level operations (alias / unalias / remove_command / is_command_defined / fn definition / call, over the names x, y, echo and std::Echo) run as one script on the full standard library; outputs of every step and the final name and alias tables of the whole registry are compared with the same model. evaluations = transitions + scripts. Scale case: a registry of 300/3000 (thorough 30000) commands with two aliases each: every name and alias resolves to its own command, refused registrations leave no trace, removing every second command (by name or alias) leaves exactly the others";
+pub const RULE: &str = "Part A: explicit-state breadth-first search to a fixpoint from the empty registry over the Rust API: set(c) for every command with name in {a,b,c} and an alias set of size <= 2 from the pool, remove/get/exists/get_for_use for every name of {a,b,c,x,y}, get_all_command_names; every transition is compared with the model (name table + alias table consulted first; an accepted registration drops an alias equal to the new name; removal drops exactly the aliases that point to the removed command): result of the call, refused registrations and lookups leave both public maps identical, every lookup of the universe agrees, no alias points to a missing command. Part B: every sequence of 1..k script-level operations (alias / unalias / remove_command / is_command_defined / fn definition / call, over the names x, y, echo and std::Echo) run as one script on the full standard library; outputs of every step and the final name and alias tables of the whole registry are compared with the same model. evaluations = transitions + scripts. Scale case: a registry of 300/3000 (thorough 30000) commands with two aliases each: every name and alias resolves to its own command, refused registrations leave no trace, removing every second command (by name or alias) leaves exactly the others. While functions run: remove_command / unalias / alias of the running function, its caller, a function that is not running and an sdk command, issued from a function called by another one: the registry follows at once and both invocations finish";
 pub const ASSUMPTIONS: &[&str] = &["unalias of a name that was once created with alias removes whatever command that name resolves to now (the implementation's bookkeeping is mirrored)", "a function defined twice in one script is refused by the function table, not the registry"];
 pub const EXHAUSTIVE: bool = true;
 pub const WALL_CAP_S: (u64, u64) = (55, 1500);
